@@ -349,6 +349,7 @@ class GEstimationSNM:
                                                  df=df,
                                                  snm_matrix=snm, y_matrix=y_vals,
                                                  weights=weight_col, print_results=self._print_results)
+            self._scipy_solver_obj = None  # a closed-form fit must not keep the solver object of an earlier search
 
         elif solver == 'search':
             # Adding other potential SNM variables to the input data
